@@ -249,6 +249,29 @@ for _ in range(3 if Q else 20):
                           {"path": name, "s": s, "seed2": seed2, "b1": b1, "b2": b2})
         nscale += 1
 
+# translation law on the implementation: the same scene described tens to hundreds of metres away from the origin of the
+# GCS (site coordinates), SAME rays (copied, not traced again): the same beamspread -- it depends on leg lengths, velocities and
+# angles only
+for _ in range(3 if Q else 20):
+    seed2 = int(rng.integers(0, 2**31))
+    off_ = rng.uniform(-900.0, 900.0, 3) * float(rng.choice([0.02, 0.2, 1.0]))
+    a = arimgen.immersion_setup(np.random.default_rng(seed2), max_refl=1, wall_points=80, numelements=3, numscat=2)
+    bset = arimgen.immersion_setup(np.random.default_rng(seed2), max_refl=1, wall_points=80, numelements=3, numscat=2, offset=off_, trace=False)
+    for name in a["paths"]:
+        pa_, pb_ = a["paths"][name], bset["paths"][name]
+        pb_.rays = arim.ray.Rays(np.array(pa_.rays.times), np.array(pa_.rays.interior_indices), pb_.to_fermat_path())
+        for fn_ in (model.beamspread_2d_for_path, model.reverse_beamspread_2d_for_path):
+            b1 = fn_(arim.ray.RayGeometry.from_path(pa_))
+            b2 = fn_(arim.ray.RayGeometry.from_path(pb_))
+            nscale += 1
+            # (translating the coordinates rounds them: legs change by about eps * |offset| / leg relative)
+            tol_ = 1e-12 + 8 * np.finfo(float).eps * float(np.max(np.abs(off_))) / 1e-3
+            if not np.allclose(b2, b1, rtol=tol_, atol=0, equal_nan=True):
+                chk.violation(f"translation:{name}", f"{fn_.__name__} changes when the whole scene is translated by {off_.tolist()} m",
+                              {"path": name, "offset": off_, "seed2": seed2, "at_origin": b1, "translated": b2, "rtol": tol_})
+                break
+chk.count(translated_scenes="rays copied, scene moved by tens to hundreds of metres")
+
 samples = [{k: meta[i][k] for k in ("path", "vel", "legs", "thetas", "impl", "model_beamspread", "spec_tube_amplitude")}
            for i in range(0, len(meta), max(1, len(meta) // 4))][:4]
 # ---- the glue model of the public functions (Model files added later, see manifest text) tied to the library on every run:
